@@ -575,10 +575,17 @@ pub fn deviations(bytes: &[u8]) -> Vec<(String, Vec<(usize, Vec<u8>)>, bool)> {
     // over-long MiniFAT: a non-free cell beyond the mini stream's length
     let mini_count = (p.dir[0].size / 64) as usize;
     if !p.minifat_sectors.is_empty() && p.minifat.len() > mini_count {
+        let cell_off = |k: usize| p.sector_off(p.minifat_sectors[k / cells]) + 4 * (k % cells);
         for k in [mini_count, p.minifat.len() - 1] {
-            let off = p.sector_off(p.minifat_sectors[k / cells]) + 4 * (k % cells);
-            out.push((format!("over-long MiniFAT@{}", k), vec![(off, le32(spec::ENDOFCHAIN))], true));
+            out.push((format!("over-long MiniFAT@{}", k), vec![(cell_off(k), le32(spec::ENDOFCHAIN))], true));
+            // a surplus cell that names a mini sector already in use
+            for v in [0u32, 1, mini_count as u32] {
+                out.push((format!("over-long MiniFAT ({})@{}", v, k), vec![(cell_off(k), le32(v))], true));
+            }
         }
+        // the whole surplus zero-padded instead of FREESECT-padded
+        let zeros: Vec<(usize, Vec<u8>)> = (mini_count..p.minifat.len()).map(|k| (cell_off(k), le32(0))).collect();
+        out.push(("over-long MiniFAT (zero padded)".into(), zeros, true));
     }
     out
 }
